@@ -69,6 +69,7 @@ pub fn run(tier: Tier, replay: Option<String>) -> i32 {
     let mut cfgs = e2::general_configs(thorough);
     cfgs.extend(e2::fairness_configs(thorough));
     e2::run_configs(&mut ck, cfgs, e2::is_c06_class);
+    e2::scale_family(&mut ck, thorough, e2::is_c06_class);
     // socket level: the C05 scenarios, judged here only for "a complete message is left
     // undelivered at quiescence while a recv is pending" (a lost wake-up through the real
     // FramedRead / pipe waker chain shows up as exactly that)
